@@ -116,7 +116,7 @@ class DiagnosticPlot:
         is_vv = np.array(self._chunk.data['type'] == -1)
 
         # I want to draw them with no facecolor ... so create an array of "facecolors"
-        fcs = np.array(deepcopy(symb_clrs))
+        fcs = np.array(deepcopy(symb_clrs), dtype=str)  # str: also works if there are no hits at all
         fcs[is_vv] = 'none'
 
         # Now let's clear the plotting area
@@ -152,7 +152,7 @@ class DiagnosticPlot:
         is_vv = np.array(self._chunk.data['type'] == -1)
 
         # I want to draw them with no facecolor ... so create an array of "facecolors"
-        fcs = np.array(['#000000'] * len(is_vv))
+        fcs = np.array(['#000000'] * len(is_vv), dtype=str)  # str: also works if there are no hits
         fcs[is_vv] = 'none'
 
         # Add a legend for these, if they exist ...
